@@ -10,6 +10,10 @@ import core, models, geomdesc as gd
 
 PROP = "C11"
 
+def ombuild_repo():
+    import ombuild
+    return ombuild.REPO
+
 # ------------------------------------------------------------------ case construction
 def small_model(rng):
     """topologies aimed at the case splits of the proofs: nested 1-4, split hemispheres with shared vertices,
@@ -66,13 +70,23 @@ def damage(m, rng):
         name, vs, ts = m["meshes"][-1]; m["meshes"][-1] = (name, vs, list(ts)[:-1]); return m, "open-mesh"
     return m, "old-ordering"
 
-def make_case(ck, cid, m, style, old, nprobes, rng, has_cond=True, cond_extra=None):
+def make_case(ck, cid, m, style, old, nprobes, rng, has_cond=True, cond_extra=None, cond_drop=None, cond_header=True, cond_lines=None):
     d = os.path.join(ck.workdir, "c%d" % cid)
     shutil.rmtree(d, ignore_errors=True); os.makedirs(d)
     g = gd.write_geom(m, d, "tri", style, rng)
     if g is None:
         style = "1.1"; g = gd.write_geom(m, d, "tri", style, rng)
-    if has_cond: gd.write_cond(m, d, rng, extra=cond_extra)
+    lines = []
+    if has_cond:
+        mc = dict(m)
+        if cond_drop is not None: mc["cond"] = {k: v for k, v in m["cond"].items() if k != cond_drop}
+        if cond_lines is not None:       # replay: exactly the stored lines
+            lines = [tuple(l) for l in cond_lines]
+            with open(os.path.join(d, "model.cond"), "w") as fh:
+                fh.write("# Properties Description 1.0 (Conductivit%s)\n" % ("ies" if cond_header else "y"))
+                for l in lines: fh.write("# c\n" if l[0] == "c" else "%s %r\n" % (l[1], float(l[2])))
+        else:
+            _, lines = gd.write_cond(mc, d, rng, extra=cond_extra, header=cond_header)
     # the model sees the names the reader assigns in that style
     mn, inn = gd.style_names(m, style)
     mm = dict(m)
@@ -90,10 +104,16 @@ def make_case(ck, cid, m, style, old, nprobes, rng, has_cond=True, cond_extra=No
         mm["domains"] = [(n.replace(":", "_"), bs) for n, bs in mm["domains"]]
     if not has_cond: mm = dict(mm); mm["cond"] = None
     probes = gd.probe_points(m, rng, nprobes) if nprobes else []
-    w, fl, aux = gd.abstract(mm, probes, old)
-    mline = core.fcase("c11", w, fl)
+    w, aux = gd.abstract(mm, probes, old)
+    cw, fl = gd.cond_wire(mm, lines, has_cond, cond_header)
+    mline = core.fcase("c11", w + cw, fl)
     hline = core.fcase("c11", [1, cid, 1 if has_cond else 0, 1 if old else 0], [c for p in probes for c in p])
-    return dict(cid=cid, model=mm, mline=mline, hline=hline, probes=probes, aux=aux, style=style, old=old, has_cond=has_cond, dir=d)
+    # expected conductivity per domain name: the first entry of that name
+    first = {}
+    for l in lines:
+        if l[0] == "e" and l[1] not in first: first[l[1]] = float(l[2])
+    return dict(cid=cid, model=mm, mline=mline, hline=hline, probes=probes, aux=aux, style=style, old=old, has_cond=has_cond, dir=d,
+                cond_lines=[list(l) for l in lines], cond_header=cond_header, cond_first=first)
 
 def feq(a, b): return (a == b) or (a != a and b != b)
 
@@ -152,6 +172,15 @@ def own_relations(case, ints, floats):
         seen.add(k)
     return bad
 
+def expected_nested(m):
+    """geometric truth of 'the interfaces form a chain under inclusion' for the generated topologies"""
+    info = m.get("info", {})
+    k = info.get("kind")
+    if k == "nested": return True, "nested shells"
+    if k == "inclusions": return (len(info.get("blobs", [])) <= 1), "%d sibling inclusion(s)" % len(info.get("blobs", []))
+    if k == "split": return False, "split hemispheres"
+    return None, "?"
+
 def expected_domains(case):
     """geometric truth for the probes: the unique domain of the description whose region contains the point
     (region = conjunction over the boundaries, computed from winding numbers); None if not exactly one"""
@@ -174,7 +203,10 @@ def main(replay=None):
     cases = []
     dist = {}
     def add(m, style, old, tag, nprobes=0, **kw):
-        c = make_case(ck, len(cases), m, style, old, nprobes, rng, **kw); c["tag"] = tag; cases.append(c)
+        c = make_case(ck, len(cases), m, style, old, nprobes, rng, **kw); c["tag"] = tag
+        if c["aux"].get("unstable"):
+            dist["skipped:random-point-loop"] = dist.get("skipped:random-point-loop", 0) + 1; return c
+        cases.append(c)
         dist[tag] = dist.get(tag, 0) + 1
         return c
     if replay:
@@ -182,13 +214,18 @@ def main(replay=None):
         for rc in R.get("cases", []):
             m = rc["model"]; m["meshes"] = [(n, [tuple(v) for v in vs], [tuple(t) for t in ts]) for n, vs, ts in m["meshes"]]
             m["interfaces"] = [(n, [tuple(x) for x in ms]) for n, ms in m["interfaces"]]; m["domains"] = [(n, [tuple(x) for x in bs]) for n, bs in m["domains"]]
-            c = add(m, rc["style"], rc["old"], rc.get("tag", "replay"), 0, has_cond=rc.get("has_cond", True))
+            c = add(m, "1.1", rc["old"], rc.get("tag", "replay"), 0, has_cond=rc.get("has_cond", True),
+                    cond_lines=rc.get("cond_lines"), cond_header=rc.get("cond_header", True))
             c["probes"] = [tuple(p) for p in rc.get("probes", [])]
-            w, fl, aux = gd.abstract(c["model"], c["probes"], c["old"])
-            c["mline"] = core.fcase("c11", w, fl); c["aux"] = aux
+            w, aux = gd.abstract(c["model"], c["probes"], c["old"])
+            cw, fl = gd.cond_wire(c["model"], [tuple(l) for l in c["cond_lines"]], c["has_cond"], c["cond_header"])
+            c["mline"] = core.fcase("c11", w + cw, fl); c["aux"] = aux
             c["hline"] = core.fcase("c11", [1, c["cid"], 1 if c["has_cond"] else 0, 1 if c["old"] else 0], [x for p in c["probes"] for x in p])
     else:
         nbase = 14 if quick else 60
+        # the witness of nested_classification_correct_refuted, replayed on every run
+        wm = models.inclusions(1.0, [((0.45, 0, 0), 0.3, 1.0), ((-0.45, 0.1, 0), 0.3, 0.33)], 1.0, level=0); wm["info"]["topology"] = "inclusions"
+        add(wm, "1.1", False, "base:inclusions", nprobes=10)
         for b in range(nbase):
             m = small_model(rng)
             top = m["info"].get("topology", "?")
@@ -198,15 +235,40 @@ def main(replay=None):
             add(m, rng.choice(STYLES[2:]), False, "syntax", nprobes=4)
             if rng.random() < 0.5: add(m, "1.1", True, "old-ordering")
             if rng.random() < 0.35: add(m, "1.1", False, "no-cond", has_cond=False)
+            if rng.random() < 0.5:
+                dn = [n for n, _ in m["domains"]]
+                k = rng.randrange(4)
+                if k == 0: add(m, "1.1", False, "cond:duplicate-first-wins", cond_extra=[(rng.choice(dn), rng.choice([0.0, 2.5, 7.0])) for _ in range(2)])
+                elif k == 1: add(m, "1.1", False, "cond:unknown-names", cond_extra=[("Nowhere", 3.0), ("X%d" % rng.randrange(9), 0.0)])
+                elif k == 2: add(m, "1.1", False, "error:cond-missing-domain", cond_drop=rng.choice(dn))
+                else: add(m, "1.1", False, "error:cond-header", cond_header=False)
             if rng.random() < 0.8:
                 dm, tag = damage(m, rng)
                 add(dm, "1.1", tag == "old-ordering", "error:" + tag)
+    # the refutation witness on the suite's own data: data/HeadNNb1 (two spheres inside the cortex) - harness only
+    nnb = None
+    src = os.path.join(ombuild_repo(), "data", "HeadNNb1")
+    if not replay and os.path.isdir(src):
+        cid = 100000; d = os.path.join(ck.workdir, "c%d" % cid); shutil.rmtree(d, ignore_errors=True); shutil.copytree(src, d)
+        shutil.copy(os.path.join(d, "HeadNNb1.geom"), os.path.join(d, "model.geom"))
+        nnb = core.fcase("c11", [1, cid, 0, 0], [])
     mo = core.run_model([c["mline"] for c in cases])
+    if nnb:
+        _, o_, _ = core.run_harness(hb, [nnb], ck.workdir, timeout=300, tag="nnb")
+        zi, _ = core.fparse(o_[0])
+        if zi and zi[0] == 0:
+            if decode(zi)["nested"]:
+                ck.violation("nested classification: data/HeadNNb1 classified nested",
+                             "is_nested() = 1 for data/HeadNNb1 (SphereNorth and SphereSouth are siblings inside Cortex: not a chain under inclusion)",
+                             dict(kind="data", path="data/HeadNNb1/HeadNNb1.geom"))
+        else:
+            ck.violation("data/HeadNNb1 does not load", "the suite's HeadNNb1 geometry no longer loads: %s" % o_[0][:100], dict(kind="data", path="data/HeadNNb1/HeadNNb1.geom"))
     rc_, io, err = core.run_harness(hb, [c["hline"] for c in cases], ck.workdir, timeout=900)
     nontriv = set(); mism = 0; nprobe = 0; errs = 0
     for c, m_, i_ in zip(cases, mo, io):
         mi, mf = core.fparse(m_); ii, if_ = core.fparse(i_)
-        rep = dict(kind="correspondence", cases=[dict(model=c["model"], style=c["style"], old=c["old"], has_cond=c["has_cond"], tag=c["tag"], probes=c["probes"])],
+        rep = dict(kind="correspondence", cases=[dict(model=c["model"], style=c["style"], old=c["old"], has_cond=c["has_cond"], tag=c["tag"], probes=c["probes"],
+                                                     cond_lines=c["cond_lines"], cond_header=c["cond_header"])],
                    replay_cmd="./check C11 --replay <this file>")
         if ii is None:
             ck.violation("crash loading %s" % c["tag"], "the library crashed while loading a generated description (%s): %s" % (c["tag"], i_), rep); continue
@@ -241,13 +303,22 @@ def main(replay=None):
                     ck.violation("domain(p): %s" % c["tag"].split(":")[-1],
                                  "probe point %r lies in domain(s) %s geometrically but Geometry::domain returned %s" % (p, [names[h] for h in hits], names[gk] if 0 <= gk < len(names) else gk), rep)
                     break
+        # nested / non-nested classification against the geometric truth of the generated topology
+        if mi[0] == 0 and c["tag"].startswith("base:"):
+            want, what = expected_nested(c["model"])
+            got = decode(ii)["nested"]
+            if want is not None and bool(got) != want:
+                label = "sibling inclusions" if c["model"]["info"].get("kind") == "inclusions" else what
+                ck.violation("nested classification: %s classified %s" % (label, "nested" if got else "non-nested"),
+                             "is_nested() = %d for a model with %s (the interfaces %s a chain under inclusion); witness of nested_classification_correct_refuted replayed on the library"
+                             % (got, what, "form" if want else "do not form"), rep)
         # conductivities attached by name
         lf = os.path.join(c["dir"], "loaded.txt")
         if mi[0] == 0 and c["has_cond"] and os.path.exists(lf):
             for line in open(lf):
                 t = line.split()
                 if t[0] == "domain":
-                    want = c["model"]["cond"].get(t[1])
+                    want = c["cond_first"].get(t[1])
                     if want is None or float.fromhex(t[2]) != float(want):
                         ck.violation("conductivity of %s" % c["tag"].split(":")[0], "domain %s got conductivity %s, file says %r" % (t[1], t[2], want), rep)
     ck.cov.update(evaluations=len(cases), distinct_nontrivial=len(nontriv),
